@@ -64,6 +64,8 @@ type Result struct {
 }
 
 type srcState struct {
+	batch  int // settings in effect for the current generation (may change at a restart)
+	conc   int
 	plan   SourcePlan
 	node   *node.Node
 	client *jrpc2.Client // current generation
@@ -427,7 +429,7 @@ func (w *World) build() error {
 	for _, sp := range p.Sources {
 		n := node.New(sp.Name, sp.ChainID, p.Seed, MakeFiller(p, sp.Name))
 		n.Grow(sp.InitLen)
-		w.srcs[sp.Name] = &srcState{plan: sp, node: n}
+		w.srcs[sp.Name] = &srcState{plan: sp, node: n, batch: sp.Batch, conc: sp.Conc}
 	}
 	cj, err := p.ConfigJSON(w.urlsFor)
 	if err != nil {
@@ -522,7 +524,7 @@ func (w *World) startGeneration() error {
 			shovel.WithPG(pool),
 			shovel.WithRange(ps.ref.Start, ps.ref.Stop),
 			shovel.WithPollDuration(time.Duration(ps.src.plan.PollMs)*time.Millisecond),
-			shovel.WithConcurrency(ps.src.plan.Conc, ps.src.plan.Batch),
+			shovel.WithConcurrency(ps.src.conc, ps.src.batch),
 			shovel.WithSrcName(ps.src.plan.Name),
 			shovel.WithChainID(ps.src.plan.ChainID),
 			shovel.WithSource(ps.src.client),
